@@ -275,6 +275,10 @@ def cases(tier, seed):
             r = gen.rng_for(3003, i)
             out.append(_draw_cross(r, str(r.choice(["CPCCA", "MCA", "CCA", "RDA", "ComplexCPCCA"])), (kx, ky), full=True, nsd=2 if "ds" in (kx + ky) else None))
             i += 1
+    # ---- grids containing latitude +-90 exactly (row-wise tolerance, see c03_pole.py) ----
+    from . import c03_pole
+
+    out.extend(c03_pole.cases(tier))
     # ---- seeded random part ---------------------------------------------------------
     nrand = 700 if tier == "quick" else 15000
     for j in range(nrand):
@@ -554,6 +558,10 @@ def _random_scores(lrng, vrng, sdims, k, cplx, mag, min_len=1, fit_labels=None):
 def run_case(case, obs):
     import xarray as xr  # noqa: F401
 
+    if case.get("kind") == "pole":
+        from . import c03_pole
+
+        return c03_pole.run_case(case, obs)
     cls = case["cls"]
     fam = case["fam"]
     rng = gen.rng_for(case["dseed"], 33)
